@@ -68,6 +68,8 @@ pub struct CaseOut {
     pub notes: Vec<String>,
     /// model states touched by this case (engines that explore a model report them here)
     pub states: u64,
+    /// failures of the machinery itself (reference model, witness search, ...): never a verdict
+    pub machinery: Vec<String>,
 }
 
 impl CaseOut {
@@ -76,6 +78,10 @@ impl CaseOut {
     }
     pub fn fail(&mut self, msg: impl Into<String>) {
         self.mismatches.push(mm(msg));
+    }
+    /// something went wrong in the harness / reference, not in the code under test
+    pub fn fail_machinery(&mut self, msg: impl Into<String>) {
+        self.machinery.push(msg.into());
     }
     pub fn failk(&mut self, key: impl Into<String>, msg: impl Into<String>) {
         self.mismatches.push(mmk(key, msg));
@@ -257,6 +263,12 @@ pub fn run_part<P: Part>(p: &P, cfg: &Cfg) -> PartReport {
                             a.errs.push(format!("nondeterministic case #{}: two runs differ", i));
                             continue;
                         }
+                    }
+                    if !out.machinery.is_empty() {
+                        for m in &out.machinery {
+                            a.errs.push(format!("case #{} {}: {}", i, serde_json::to_string(c).unwrap_or_default().chars().take(300).collect::<String>(), m));
+                        }
+                        continue;
                     }
                     a.run += 1;
                     a.transitions += out.transitions;
